@@ -616,7 +616,7 @@ var mnemonicWords = map[string]bool{"dat": true, "mov": true, "add": true, "sub"
 
 func ruleTabCase(w *World, r *RuleResult) {
 	d := newDedup(r)
-	for _, fn := range libFuncs(w) {
+	for _, fn := range libRoots(w) {
 		paths, err := w.Paths(fn)
 		if err != nil {
 			continue
